@@ -168,7 +168,7 @@ func genChunks(t *rapid.T, label string, n int) []int {
 func genBuf(t *rapid.T, label string) int {
 	return rapid.OneOf(
 		rapid.Just(0),
-		rapid.SampledFrom([]int{1, 2, 16, 124, 125, 126, 127, 128, 256, 257, 1024, 4096}),
+		rapid.SampledFrom([]int{1, 2, 16, 124, 125, 126, 127, 128, 256, 257, 1024, 4096, 65535, 65536, 70000}),
 		rapid.IntRange(1, 300),
 		rapid.IntRange(1, 20),
 	).Draw(t, label)
